@@ -32,6 +32,7 @@ func vIsName(c byte) bool {
 //	b  -> empty block (IsNil)
 //	c  -> literal that looks like template syntax: "@a'%v"
 //	ab -> nested template "[@a'@b]" bound to the same a and b
+//	d  -> Sprintf snippet "%v-%v" of two blocks
 func vTemplateArgs() []TArg {
 	a := Block("<A>")
 	b := Block("")
@@ -40,6 +41,8 @@ func vTemplateArgs() []TArg {
 		Arg("b", b),
 		Arg("c", Block("@a'%v")),
 		Arg("ab", T("[@a'@b]", Arg("a", a), Arg("b", b))),
+		// a Sprintf snippet: a placeholder used twice renders the same value twice
+		Arg("d", Sprintf("%v-%v", Block("1"), Block("2"))),
 	}
 }
 
@@ -54,6 +57,8 @@ func vRefArg(name string) (string, bool) {
 		return "@a'%v", true
 	case "ab":
 		return "[<A>]", true
+	case "d":
+		return "1-2", true
 	}
 	return "", false
 }
@@ -187,13 +192,17 @@ func Verif_C09_Sprintf(n, k int) {
 		args[i] = Block("<" + string([]byte{'0' + byte(i)}) + ">")
 	}
 	want, wantPanic := vRefSprintf(format, k)
-	got := ""
+	got, again := "", ""
 	panicked := verifsym.Panics(func() {
-		got = vRender(Sprintf(format, args...))
+		sn := Sprintf(format, args...)
+		got = vRender(sn)
+		// a snippet is a value: rendering it a second time gives the same text
+		again = vRender(sn)
 	})
 	verifsym.Assert(panicked == wantPanic, "Sprintf panics iff an argument is missing or the verb is not %v %T %%")
 	if !panicked && !wantPanic {
 		verifsym.Assert(got == want, "Sprintf output differs from the reference")
+		verifsym.Assert(again == want, "rendering the same Sprintf snippet a second time gives other text")
 	}
 	verifsym.Observe("panicked", panicked)
 	verifsym.Observe("got", got)
